@@ -1,0 +1,9 @@
+// Copyright The OpenTelemetry Authors
+// SPDX-License-Identifier: Apache-2.0
+
+//go:build !verif
+
+package log // import "go.opentelemetry.io/otel/sdk/log"
+
+// verifPoint is a no-op unless built with -tags verif (see verif_on.go).
+func verifPoint(string, ...any) {}
